@@ -61,7 +61,10 @@ def check_const(case, ctx):
     if sc == 0:
         ctx.ok(not np.any(K != 0), name, 'no out-of-plane amplitude is active: the matrix must be zero')
         return
-    ctx.close(name, K, ref, TOL, bucket=name, scale=sc)
+    # sub-interval tables are differences of antiderivatives, each of the size of the full-width integral: on a sliver [y1, y2] the
+    # result is resolved to eps times the FULL-width scale, not to eps times its own (much smaller) size
+    floor = 2e-13 * _natural_scale(pd, N, None, None) if y else 0.
+    ctx.close(name, K, ref, TOL, bucket=name, scale=sc, atol=floor)
     ctx.close('symmetry', K, K.T, 1e-13, bucket=name + '.symmetry')
     _w_only(ctx, K, pd, row0, own, name)
     ctx.ok(np.array_equal(dense(p.kG0), K), 'kG0.attribute', 'Panel.kG0 differs from the returned matrix')
